@@ -564,4 +564,136 @@ theorem nosplit_of_same_side (hs : LawfulSqrt sq) (s : Segment3 K) (n : V3 K) (b
 
 end seg
 
+
+section sh
+variable (sq : K → K)
+set_option linter.style.haveILetI false
+
+/-! ## specification vocabulary and loop lemmas for `clip_halfspace_polygon` / `Aabb::clip_polygon` -/
+
+/-- the point `a + t (b - a)` -/
+def segPt (a b : V3 K) (t : K) : V3 K := ⟨a.x + (b.x - a.x) * t, a.y + (b.y - a.y) * t, a.z + (b.z - a.z) * t⟩
+theorem segPt_eq (a b : V3 K) (t : K) : letI := fieldNum K sq; a.add ((b.sub a).smul t) = segPt a b t := rfl
+
+/-- the half-space functional `n·(p - c)`; the half-space of `clip_halfspace_polygon` is `{p | hsVal c n p ≤ 0}` -/
+def hsVal (c n p : V3 K) : K := (p.x - c.x) * n.x + (p.y - c.y) * n.y + (p.z - c.z) * n.z
+
+/-- convex hull of a finite vertex list, as the least set containing the vertices and closed under taking segments -/
+inductive Hull (pts : List (V3 K)) : V3 K → Prop
+  | vert (p : V3 K) : p ∈ pts → Hull pts p
+  | seg (a b : V3 K) (t : K) : Hull pts a → Hull pts b → 0 ≤ t → t ≤ 1 → Hull pts (segPt a b t)
+
+theorem hsVal_segPt (c n a b : V3 K) (t : K) : hsVal c n (segPt a b t) = (1 - t) * hsVal c n a + t * hsVal c n b := by
+  simp only [hsVal, segPt]; ring
+
+/-- a half-space is convex: it contains the hull of any of its finite subsets -/
+theorem hull_halfspace (c n : V3 K) (pts : List (V3 K)) (h : ∀ v ∈ pts, hsVal c n v ≤ 0) (p : V3 K) (hp : Hull pts p) :
+    hsVal c n p ≤ 0 := by
+  induction hp with
+  | vert p hp => exact h p hp
+  | seg a b t _ _ h0 h1 iha ihb => rw [hsVal_segPt]; nlinarith
+
+/-- hull of points of a hull is inside the hull -/
+theorem hull_trans (P Q : List (V3 K)) (h : ∀ v ∈ Q, Hull P v) (p : V3 K) (hp : Hull Q p) : Hull P p := by
+  induction hp with
+  | vert p hp => exact h p hp
+  | seg a b t _ _ h0 h1 iha ihb => exact Hull.seg a b t iha ihb h0 h1
+
+theorem keepPoint_iff (c n p : V3 K) : @keepPoint K (fieldNum K sq) c n p = true ↔ hsVal c n p ≤ 0 := by
+  simp only [keepPoint, hsVal, V3.dot, V3.sub]
+  exact ⟨of_decide_eq_true, decide_eq_true⟩
+
+/-- the crossing point computed by `ray_toi_with_halfspace` lies exactly on the plane -/
+theorem rayToi_on_plane (c n o d : V3 K) (t : K) (h : @rayToiHalfspace K (fieldNum K sq) c n o d = some t) :
+    letI := fieldNum K sq
+    hsVal c n (o.add (d.smul t)) = 0 := by
+  letI : Num K := fieldNum K sq
+  simp only [rayToiHalfspace, lineToiHalfspace] at h
+  split at h
+  · rename_i t' heq
+    split_ifs at heq with hz
+    simp only [Option.some.injEq] at heq
+    split_ifs at h with ht
+    simp only [Option.some.injEq] at h
+    subst h; subst heq
+    have hne : n.dot d ≠ 0 := by
+      intro h0; rw [h0] at hz
+      exact hz ((relEqZero_iff sq 0).mpr (by simp [eps52_pos.le]))
+    have key : n.dot (c.sub o) / n.dot d * n.dot d = n.dot (c.sub o) := div_mul_cancel₀ _ hne
+    generalize n.dot (c.sub o) / n.dot d = t at key
+    simp only [hsVal, V3.add, V3.smul, V3.dot, V3.sub] at key ⊢
+    linear_combination key
+  · simp at h
+
+/-- what one visited vertex contributes -/
+theorem clipVisit_sound (c n prev pt : V3 K) (lk isLast : Bool) (q : V3 K)
+    (hq : q ∈ @clipVisit K (fieldNum K sq) c n prev lk pt isLast) :
+    (q = pt ∧ hsVal c n pt ≤ 0) ∨ (∃ t, 0 < t ∧ t < 1 ∧ q = segPt prev pt t ∧ hsVal c n q = 0) := by
+  letI : Num K := fieldNum K sq
+  simp only [clipVisit, List.mem_append] at hq
+  rcases hq with hq | hq
+  · right
+    split_ifs at hq with hk
+    · split at hq
+      · rename_i t heq
+        split_ifs at hq with ht
+        · simp only [List.mem_singleton] at hq
+          subst hq
+          exact ⟨t, ht.1, ht.2, segPt_eq sq prev pt t, rayToi_on_plane sq c n prev (pt.sub prev) t heq⟩
+        · simp at hq
+      · simp at hq
+    · simp at hq
+  · left
+    split_ifs at hq with hk
+    · simp only [List.mem_singleton] at hq
+      simp only [Bool.and_eq_true] at hk
+      exact ⟨hq, (keepPoint_iff sq c n pt).mp hk.1⟩
+    · simp at hq
+
+
+/-- provenance of an output vertex of the Sutherland–Hodgman step: a kept input vertex, or the crossing point of an input edge -/
+def SHVertex (c n : V3 K) (poly : List (V3 K)) (q : V3 K) : Prop :=
+  (q ∈ poly ∧ hsVal c n q ≤ 0) ∨
+  (∃ a ∈ poly, ∃ b ∈ poly, ∃ t, 0 < t ∧ t < 1 ∧ q = segPt a b t ∧ hsVal c n q = 0)
+
+theorem clipPolyLoop_sound (c n : V3 K) (l : List (V3 K)) : ∀ (prev : V3 K) (lk : Bool) (q : V3 K),
+    q ∈ @clipPolyLoop K (fieldNum K sq) c n prev lk l → SHVertex c n (prev :: l) q := by
+  induction l with
+  | nil => intro prev lk q hq; simp [clipPolyLoop] at hq
+  | cons pt rest ih =>
+    intro prev lk q hq
+    simp only [clipPolyLoop, List.mem_append] at hq
+    rcases hq with hq | hq
+    · rcases clipVisit_sound sq c n prev pt lk _ q hq with ⟨rfl, hk⟩ | ⟨t, t0, t1, rfl, hz⟩
+      · exact Or.inl ⟨by simp, hk⟩
+      · exact Or.inr ⟨prev, by simp, pt, by simp, t, t0, t1, rfl, hz⟩
+    · rcases ih pt _ q hq with ⟨hm, hk⟩ | ⟨a, ha, b, hb, t, t0, t1, rfl, hz⟩
+      · exact Or.inl ⟨List.mem_cons_of_mem _ hm, hk⟩
+      · exact Or.inr ⟨a, List.mem_cons_of_mem _ ha, b, List.mem_cons_of_mem _ hb, t, t0, t1, rfl, hz⟩
+
+theorem clipPolyLoop_complete (c n : V3 K) (l : List (V3 K)) : ∀ (prev : V3 K) (lk : Bool) (p : V3 K),
+    p ∈ l → hsVal c n p ≤ 0 → (p ∈ @clipPolyLoop K (fieldNum K sq) c n prev lk l ∨ l.getLast? = some p) := by
+  induction l with
+  | nil => intro prev lk p hp; simp at hp
+  | cons pt rest ih =>
+    intro prev lk p hp hk
+    simp only [clipPolyLoop, List.mem_append]
+    rcases List.mem_cons.mp hp with rfl | hp'
+    · cases rest with
+      | nil => right; rfl
+      | cons r rs =>
+        left; left
+        simp only [clipVisit, List.mem_append]
+        right
+        have := (keepPoint_iff sq c n p).mpr hk
+        simp [this]
+    · rcases ih pt _ p hp' hk with h | h
+      · exact Or.inl (Or.inr h)
+      · right
+        cases rest with
+        | nil => simp at hp'
+        | cons r rs => simpa [List.getLast?_cons_cons] using h
+
+end sh
+
 end C17
